@@ -594,6 +594,15 @@ def c10_single(v):
                     f = v.fin.get(r)
                     if f is None or f[0] > p:
                         V.append("C10 %s began at t=%d before the run of the nested scheduler %s it requires was over" % (j, e[0], r))
+    # ... and it finishes when its own run does: once it is over for its parent, nothing of it executes any more
+    for s, st in v.stop.items():
+        if v.is_sched(s) and v.info[s]["parent"] is not None:
+            ds = set(v.descendants(s))
+            for e in v.log[st[0] + 1:]:
+                if e[2] in JOBLEVEL and e[3] in ds:
+                    V.append("C10 nested scheduler %s is over for its parent (%s at t=%d) but its job %s is still active (%s at t=%d)"
+                             % (s, st[2], st[1], e[3], e[2], e[0]))
+                    break
     for s in v.began:
         par = v.info[s]["parent"]
         if not v.is_sched(s) or par is None or s not in v.fin:
